@@ -193,6 +193,8 @@ def run(prog: Program, L: Ledger) -> None:
     scs = scenarios(prog, with_composites=True, iterations=1)
     if L.tier == "thorough":
         scs += scenarios(prog, with_composites=False, iterations=2)
+        # two different moves in one table, two consecutive trials (e.g. a rejected exchange followed by a displacement)
+        scs += [s for s in scenarios(prog, with_composites=True, iterations=2) if len(s.table) == 2]
     L.floor("driver × move-table scenarios", len(scs), 20)
     results = run_all(prog, "qsa.props.c04", scs)
     tot_paths = tot_trials = 0
